@@ -99,8 +99,8 @@ func keysOfSS(m map[string]string) []string {
 }
 
 var _ = register(&propSpec{
-	ID:   "C16.rawline",
-	Rule: "C16.fault's planted faults (22 kinds of lexer / parser / execution faults, in the root, an included, lazily included, extended or imported file, behind random multi-line / CRLF / multi-byte layout) written to a real temporary directory and loaded with LocalFilesystemLoader: Error.RawLine() must return exactly line e.Line of the file the error names, and the reported token's text must sit at e.Column of that line. Non-trivial: the position is beyond line 1 or in another file than the root.",
+	ID:    "C16.rawline",
+	Rule:  "C16.fault's planted faults (22 kinds of lexer / parser / execution faults, in the root, an included, lazily included, extended or imported file, behind random multi-line / CRLF / multi-byte layout) written to a real temporary directory and loaded with LocalFilesystemLoader: Error.RawLine() must return exactly line e.Line of the file the error names, and the reported token's text must sit at e.Column of that line. Non-trivial: the position is beyond line 1 or in another file than the root.",
 	Gen:   func(t *rapid.T) any { return genC16Fault(t) },
 	New:   func() any { return &c16Fault{} },
 	Check: checkC16RawLine,
